@@ -183,6 +183,17 @@ Theorem C11_prefit_interrupted_harmless :
   = scrape classes uf co (map write_fit (filter healthy specs)) db.
 Proof. exact prefit_interrupted_harmless. Qed.
 
+(* ---- archives: unzip_directory extracts every archive over the folder beside it, so for a fit whose complete
+   archive is present the database holds the ARCHIVE's content, whatever (partial, stale, identical, absent)
+   the folder beside it holds ---- *)
+Theorem C11_archive_wins : forall (classes : list search_class) (uf co : bool) (ds : list on_disk),
+  wf classes uf co (unzip_all ds) ->
+  exists db, scrape classes uf co (unzip_all ds) [] = Loaded db /\
+    forall d a, In d ds -> d_archive d = Some a -> f_metadata a = true -> included co a = true ->
+      exists r, In r db /\ holds_content r a.
+Proof. exact archive_wins. Qed.
+
+Print Assumptions C11_archive_wins.
 Print Assumptions C11_all_searches.
 Print Assumptions C11_second_load.
 Print Assumptions C11_lossless.
